@@ -150,6 +150,9 @@ def make_method(fam, mname):
         nested = [n for n in names if not n.startswith("_") and n != "self"]
         tag = f"C17/K3/{mname}"
         check(sorted(nested) == sorted(expected), "the nested-attribute keywords correspond one-to-one to the init-enabled attributes of the nested spec class", f"{tag}/advertised-keywords", lambda: f"advertised {nested!r} expected {expected!r}")
+        if expected == INNER_INIT:
+            dflt = {n: sig.parameters[n].default for n in INNER_INIT}
+            check(dflt["a"] == 0 and dflt["a"] is not MISSING and dflt["tags"] == [], "defaults are as shown: nested keywords advertise the nested attribute's default (also falsy ones)", f"{tag}/advertised-defaults", lambda: f"{dflt!r}")
         s0 = snap(o)
         if unk:
             bad = pick(UNADVERTISED, un)
@@ -219,6 +222,29 @@ def make_overflow():
         o = Child(**kw)
         k = list(kw)[0]
         check(getattr(o, k) is v or getattr(o, k) == v, "advertised keyword reaches the behaviour", "C17/overflow/value")
+        dfl = {n: sig.parameters[n].default for n in ("a", "b", "c")}
+        check(dfl == {"a": 1, "b": 2, "c": 3}, "defaults are as shown", "C17/overflow/advertised-defaults", lambda: f"{dfl!r}")
+
+        @spec_class(bootstrap=True)
+        class Zero:  # falsy defaults must be advertised as such
+            n: int = 0
+            s: str = ""
+            f: bool = False
+
+        zd = {n: p.default for n, p in inspect.signature(Zero.__init__).parameters.items() if n != "self"}
+        check(zd == {"n": 0, "s": "", "f": False}, "defaults are as shown (falsy defaults)", "C17/ctor/falsy-defaults-not-advertised", lambda: f"{zd!r}")
+
+        @spec_class(bootstrap=True)
+        class RBase:
+            x: int = 1
+            w: str = "w"
+
+        @spec_class(bootstrap=True)
+        class RSub(RBase):  # re-declares an inherited attribute
+            x: int = 7
+
+        r = RSub(x=v)
+        check(r.x is v or r.x == v, "every advertised keyword is accepted and reaches the underlying behaviour with the value given (re-declared inherited attribute)", "C17/ctor/redeclared-keyword-dropped", lambda: f"RSub(x={v!r}).x == {r.x!r}")
         return "ok"
 
     return h
@@ -235,4 +261,86 @@ def obligations(tier):
         for mname in methods_k3(EAGER):
             obs.append(Ob(f"C17.{fam}.K3.{mname}", make_method(fam, mname), [(5, tg, un, unk, w) for tg in (False, True) for un in range(7) for unk in (False, True) for w in range(3)], f"generated method K3.{mname}: advertised nested keywords vs init-enabled attributes of the nested class; single keywords and the pair with symbolic values; unadvertised names from {UNADVERTISED}", expect=set(), timeout=T))
     obs.append(Ob("C17.overflow.ctor", make_overflow(), [(s, 4) for s in range(3)], "subclass of a class with an overflow attribute, adding attributes incl. an init=False one: advertised constructor keywords", expect={"ok"}, timeout=T))
+    return obs
+
+
+# ---------------------------------------------------------------------------------------------------------------------
+# every generated method of K1 / K2 / K4: advertised keyword-only parameters are the documented ones, each is accepted,
+# any other keyword raises TypeError before anything is changed
+
+
+def expected_kwonly(tmpl, name):
+    flags = ["_inplace", "_if"]
+    coll_list = {"num", "tag", "extra", "lst_item", "item", "kl2_item"}
+    if tmpl == "K4" and "_" in name and name.split("_", 1)[1] in ("item", "bag_item", "lst_item", "kl2_item") and not name.startswith("without_"):
+        nested = ITEM_INIT
+    else:
+        nested = []
+    if name in ("update", "transform"):
+        return sorted(flags + {"K1": ["x", "n", "s", "f", "o", "u", "lit"], "K2": ["nums", "opts", "vals", "tags", "y", "extras", "flags", "marks"], "K4": ["items", "bag", "lst", "y", "kl2"]}[tmpl])
+    if name == "reset" or name.startswith("reset_"):
+        return sorted(flags)
+    kind, target = name.split("_", 1)
+    if target in coll_list:  # list element helpers
+        if kind == "with":
+            return sorted(flags + ["_index", "_insert"] + nested)
+        return sorted(flags + ["_by_index"] + nested)
+    return sorted(flags + nested)
+
+
+def make_all_methods(tmpl):
+    def h(mi: int, un: int, unk: bool, v: int) -> str:
+        NS = EAGER
+        if tmpl == "K1":
+            o = NS.K1(x=1)
+        elif tmpl == "K2":
+            o = NS.K2(nums=[1, 2], opts={"a": 1}, vals={1}, tags=["t"], extras=[3], flags={"f": 1}, marks={2})
+        else:
+            o = NS.K4(items=[NS.Item("a")], bag=[NS.Item("b")], lst=[NS.Item("c")])
+        names = sorted(n for n in dir(type(o)) if n.startswith(("with_", "update", "transform", "reset", "without_")))
+        name = pick(names, mi)
+        m = getattr(o, name)
+        sig = inspect.signature(m)
+        kwonly = sorted(p.name for p in sig.parameters.values() if p.kind is p.KEYWORD_ONLY)
+        want = expected_kwonly(tmpl, name)
+        tag = f"C17/{tmpl}/{name}"
+        check(kwonly == want, "parameter kinds are as shown: the advertised keyword-only parameters are the documented ones", f"{tag}/advertised-keywords", lambda: f"advertised {kwonly!r} documented {want!r}")
+        positional = [p for p in sig.parameters.values() if p.kind is p.POSITIONAL_OR_KEYWORD]
+        required = [p.name for p in positional if p.default is p.empty]
+        s0 = snap(o)
+        if unk:
+            bad = pick(UNADVERTISED + ["_index" if "_index" not in kwonly else "_idx", "_by_index" if "_by_index" not in kwonly else "_byindex"], un)
+            if bad in sig.parameters:
+                assume(False)
+            try:
+                m(*[0 for _ in required], **{bad: 1})
+                exc = None
+            except (Violation, Skip):
+                raise
+            except Exception as ex:
+                exc = ex
+            check(isinstance(exc, TypeError), "any keyword outside the signature raises TypeError", f"{tag}/unadvertised-accepted", lambda: f"{bad!r}: {exc!r}")
+            check(same(snap(o), s0), "... before anything is changed", f"{tag}/changed-before-TypeError")
+            return "rejected"
+        # the documented flags are accepted: _if=False makes any call a no-op returning the receiver
+        try:
+            r = m(*[0 for _ in required], _if=False)
+        except (Violation, Skip):
+            raise
+        except Exception as ex:
+            check(False, "every advertised keyword is accepted (_if)", f"{tag}/_if-rejected-{type(ex).__name__}", lambda: repr(ex))
+        check(r is o and same(snap(o), s0), "_if=False is a no-op returning the receiver", f"{tag}/_if-false-not-noop")
+        return "accepted"
+
+    h.__name__ = f"all_methods_{tmpl}"
+    return h
+
+
+_base_obligations = obligations
+
+
+def obligations(tier):  # noqa: F811
+    obs = _base_obligations(tier)
+    for tmpl, n in (("K1", 31), ("K2", 63), ("K4", 39)):
+        obs.append(Ob(f"C17.all-methods.{tmpl}", make_all_methods(tmpl), [(mi, un, unk, 3) for mi in range(0, n, 3) for un in (0, 4, 8) for unk in (False, True)], f"every generated helper of template {tmpl} (symbolic index over the sorted method names): advertised keyword-only parameters equal the documented set; one unadvertised name from a pool of 9 (symbolic) raises TypeError with the receiver unchanged; _if=False accepted and a no-op", expect={"accepted", "rejected"}, timeout=300 if tier == "quick" else 900))
     return obs
